@@ -76,3 +76,11 @@ def _f12a(case, failure):
     """F12a: a leading DML keyword written directly before '(' is lexed as a Name (rule "word followed by ( is a
     function name"), so get_type() is UNKNOWN.  Only the dedicated leg that writes exactly that shape tags its failures."""
     return failure.clause == 'type' and failure.sig.endswith(':leading_kw_tight_paren') and bool(case.get('hazard'))
+
+
+@classifier('f24_paren_item_in_list')
+def _f24(case, failure):
+    """F24: a comma list in which an item is a bare parenthesised expression (no alias) is not grouped into one
+    IdentifierList (Parenthesis is not a list-item class: VALUES tuples rely on that).  The check tags the list failure
+    only when the written list has such an item."""
+    return failure.clause in ('list', 'function') and failure.sig.endswith(':paren_item_in_list')
